@@ -165,6 +165,24 @@ def inspect_c02(comp, level):
     return infos, problems
 
 
+def first_block_counts(comp):
+    """(ntables, nselectors) declared by the first block of a stream, read
+    from the header fields only (cheap, for very large blocks)."""
+    def bits(pos, n):
+        v = 0
+        for i in range(n):
+            p = pos + i
+            v = (v << 1) | ((comp[p >> 3] >> (7 - (p & 7))) & 1)
+        return v
+    pos = 32
+    if bits(pos, 48) != B.BLOCK_MAGIC:
+        return None
+    pos += 48 + 32 + 1 + 24
+    big = bits(pos, 16)
+    pos += 16 + 16 * bin(big).count('1')
+    return bits(pos, 3), bits(pos + 3, 15)
+
+
 class Feeder(threading.Thread):
     """Feeds data to a pipe in random fragments (read() fragmentation)."""
 
